@@ -77,12 +77,15 @@ func funcLength(js JSWriter, args []ast.Node) {
 }
 
 func funcRound(js JSWriter, args []ast.Node) {
+	// Half-way cases round away from zero, as in the html backend.
+	// (Math.round alone rounds -2.5 to -2.)
+	const round = "(function(x) { return x < 0 ? -Math.round(-x) : Math.round(x); })"
 	switch len(args) {
 	case 1:
-		js.Write("Math.round(", args[0], ")")
+		js.Write(round, "(", args[0], ")")
 	default:
 		js.Write(
-			"Math.round(", args[0], "* Math.pow(10, ", args[1], ")) / Math.pow(10, ", args[1], ")")
+			round, "(", args[0], "* Math.pow(10, ", args[1], ")) / Math.pow(10, ", args[1], ")")
 	}
 }
 
